@@ -5,8 +5,10 @@ CONSTANTS
   TemplateHasQ = FALSE
   H = 2
   LensKind = "one"
+  WithReload = FALSE
+  ReloadBumpsVersion = TRUE
   WithScroll = FALSE
   DelayedSetsVersion <- TreeDelayedSetsVersion
 SPECIFICATION Spec
-INVARIANTS TypeOK OneAlive ShownIsStarted Convergence ShowFixed DelayedFixed RowsOfOneRequest ExitClean
+INVARIANTS TypeOK OneAlive ShownIsStarted Convergence ShowFixed ReloadFixed DelayedFixed RowsOfOneRequest ExitClean
 CHECK_DEADLOCK FALSE
